@@ -1390,7 +1390,7 @@ def m_opt_combinators(m, callee, a):
     raise Unsupported(callee)
 
 
-@model(re.compile(r'^<.* as Iterator>::(map|filter|rev|skip|take|all|any|count|position|for_each|sum|product|last|nth|peekable|cloned|copied|zip|min|max|find|skip_while|take_while|filter_map|flat_map|flatten|chain|step_by)$'))
+@model(re.compile(r'^<.* as Iterator>::(map|filter|rev|skip|take|all|any|count|position|rposition|for_each|sum|product|last|nth|peekable|cloned|copied|zip|min|max|find|skip_while|take_while|filter_map|flat_map|flatten|chain|step_by)$'))
 def m_iter_adapters(m, callee, a):
     key = canon_last(callee)
     it = a[0]
@@ -1460,6 +1460,11 @@ def m_iter_adapters(m, callee, a):
     if key == 'position':
         for i, x in enumerate(each()):
             if m.branch(call_closure(m, a[1], [x])): return some(i)
+        return none()
+    if key == 'rposition':
+        xs = drain()
+        for i in range(len(xs) - 1, -1, -1):
+            if m.branch(call_closure(m, a[1], [xs[i]])): return some(i)
         return none()
     if key == 'find':
         for x in each():
